@@ -182,4 +182,1010 @@ theorem bindOk_not_err {σ : Abs} {k : Kind} {arg : BindArg} {a n : Nat}
     (h1 : BindOk σ k arg a) (h2 : BindErr σ k arg n) : False := by
   cases h1 <;> cases h2 <;> first | omega | (simp_all; done) | grind
 
+/-- `c'` has the same address table as `c` (socket addresses, SAP membership, names) -/
+def SameTable (c c' : Llc) : Prop :=
+  (∀ id, (c'.sock id).addr = (c.sock id).addr) ∧ c.n ≤ c'.n ∧
+  (∀ a, (c'.sap a).map (·.socks) = (c.sap a).map (·.socks)) ∧ c'.snl = c.snl
+
+theorem SameTable.refl (c : Llc) : SameTable c c := ⟨fun _ => rfl, Nat.le_refl _, fun _ => rfl, rfl⟩
+
+theorem SameTable.trans {c1 c2 c3 : Llc} (h1 : SameTable c1 c2) (h2 : SameTable c2 c3) : SameTable c1 c3 :=
+  ⟨fun id => (h2.1 id).trans (h1.1 id), Nat.le_trans h1.2.1 h2.2.1,
+   fun a => (h2.2.2.1 a).trans (h1.2.2.1 a), h2.2.2.2.trans h1.2.2.2⟩
+
+theorem same_setSock (c : Llc) (id : Nat) (s : Sock) (h : s.addr = (c.sock id).addr) :
+    SameTable c (setSock c id s) := by
+  refine ⟨fun j => ?_, Nat.le_refl _, fun _ => rfl, rfl⟩
+  simp only [setSock, upd]
+  split
+  · subst_vars; exact h
+  · rfl
+
+theorem same_sapSend (c : Llc) (a : Nat) (e : SapEntry) (p : Pdu) (h : c.sap a = some e) :
+    SameTable c (sapSend c a e p) := by
+  refine ⟨fun _ => rfl, Nat.le_refl _, fun b => ?_, rfl⟩
+  simp only [sapSend, upd]
+  split
+  · subst_vars; simp [h]
+  · rfl
+
+theorem same_sd (c : Llc) (sd : Sd) : SameTable c { c with sd := sd } :=
+  ⟨fun _ => rfl, Nat.le_refl _, fun _ => rfl, rfl⟩
+
+theorem sockEnqueue_addr {s s' : Sock} {p : Pdu} (h : sockEnqueue s p = some s') : s'.addr = s.addr := by
+  unfold sockEnqueue at h
+  repeat' split at h
+  all_goals first | (cases h; done) | (cases h; simp [appendRecv, baseClose]; try (split <;> rfl)) | skip
+
+theorem sapEnqueue_same {c c' : Llc} {a : Nat} {e : SapEntry} {p : Pdu} (hs : c.sap a = some e)
+    (h : sapEnqueue c a e p = .ok c') : SameTable c c' := by
+  unfold sapEnqueue at h
+  repeat' split at h
+  all_goals first | (cases h; done) | skip
+  · rename_i s' hq
+    cases h
+    exact same_setSock _ _ _ (sockEnqueue_addr hq)
+  · cases h; exact same_sapSend _ _ _ _ hs
+  · cases h; exact same_sapSend _ _ _ _ hs
+  · cases h; exact SameTable.refl _
+
+theorem dispatch_same {c c' : Llc} {p : Pdu} (h : dispatch c p = .ok c') : SameTable c c' := by
+  unfold dispatch at h
+  repeat' split at h
+  all_goals first | (cases h; first | exact same_sd _ _ | exact SameTable.refl _) | skip
+  all_goals first | (rename_i hs; exact sapEnqueue_same hs h) | (rename_i hs _; split at hs; (cases hs); exact sapEnqueue_same hs h)
+
+theorem sockDequeue_addr {s s' : Sock} {p : Pdu} (h : sockDequeue s = some (p, s')) : s'.addr = s.addr := by
+  unfold sockDequeue at h
+  repeat' split at h
+  all_goals first | (cases h; done) | (cases h; simp [baseClose]) | skip
+
+theorem socksDequeue_same {c c' : Llc} {p : Pdu} : ∀ {l : List Nat}, socksDequeue c l = some (p, c') → SameTable c c'
+  | [], h => by simp [socksDequeue] at h
+  | id :: t, h => by
+    unfold socksDequeue at h
+    split at h
+    · rename_i q s' hq
+      cases h
+      exact same_setSock _ _ _ (sockDequeue_addr hq)
+    · exact socksDequeue_same h
+
+theorem sapDequeue_same {c c' : Llc} {a : Nat} {e : SapEntry} {p : Pdu} (hs : c.sap a = some e)
+    (h : sapDequeue c a e = some (p, c')) : SameTable c c' := by
+  unfold sapDequeue at h
+  split at h
+  · cases h; rename_i hq; exact socksDequeue_same hq
+  · split at h
+    · cases h
+    · cases h
+      refine ⟨fun _ => rfl, Nat.le_refl _, fun b => ?_, rfl⟩
+      simp only [upd]
+      split
+      · subst_vars; simp [hs]
+      · rfl
+
+theorem collectFrom_same {c c' : Llc} {p : Pdu} : ∀ {l : List Nat}, collectFrom c l = some (p, c') → SameTable c c'
+  | [], h => by simp [collectFrom] at h
+  | a :: t, h => by
+    unfold collectFrom at h
+    repeat' split at h
+    all_goals first | (cases h; exact same_sd _ _) | exact collectFrom_same h | skip
+    · cases h; rename_i hs _ hq; exact sapDequeue_same hs hq
+
+theorem collect_same {c c' : Llc} {p : Pdu} (h : collect c = some (p, c')) : SameTable c c' :=
+  collectFrom_same h
+
+/-! ## two controllers -/
+
+def PSame (p p' : Pair) : Prop := SameTable p.a p'.a ∧ SameTable p.b p'.b
+
+theorem PSame.refl (p : Pair) : PSame p p := ⟨.refl _, .refl _⟩
+theorem PSame.trans {p1 p2 p3 : Pair} (h1 : PSame p1 p2) (h2 : PSame p2 p3) : PSame p1 p3 :=
+  ⟨h1.1.trans h2.1, h1.2.trans h2.2⟩
+
+theorem psame_set (p : Pair) (x : Side) (c : Llc) (h : SameTable (p.get x) c) : PSame p (p.set x c) := by
+  cases x <;> simp only [Pair.get, Pair.set] at * <;> exact ⟨by first | exact h | exact .refl _, by first | exact h | exact .refl _⟩
+
+theorem xfer_same {p p' : Pair} {x : Side} {m : Bool} (h : xfer p x = .ok (p', m)) : PSame p p' := by
+  unfold xfer at h
+  split at h
+  · cases h; exact .refl _
+  · rename_i pdu cx hc
+    simp only [Py.bind_eq_ok] at h
+    obtain ⟨cy, hd, h⟩ := h
+    cases h
+    have h1 := psame_set p x cx (collect_same hc)
+    have h2 := psame_set (p.set x cx) (!x) cy (dispatch_same hd)
+    exact ⟨(h1.trans h2).1, (h1.trans h2).2⟩
+
+theorem pump_same : ∀ (k : Nat) {p p' : Pair}, pump k p = .ok p' → PSame p p'
+  | 0, p, p', h => by cases h; exact .refl _
+  | k + 1, p, p', h => by
+    unfold pump at h
+    simp only [Py.bind_eq_ok] at h
+    obtain ⟨r1, h1, r2, h2, h⟩ := h
+    have s1 := xfer_same (p' := r1.1) (m := r1.2) h1
+    have s2 := xfer_same (p' := r2.1) (m := r2.2) h2
+    split at h
+    · cases h; exact s1.trans s2
+    · exact (s1.trans s2).trans (pump_same k h)
+
+theorem popOrPump_same {p : Pair} {x : Side} {id : Nat} {r : Pair × Option Pdu}
+    (h : popOrPump p x id = .ok r) : PSame p r.1 := by
+  unfold popOrPump at h
+  split at h
+  · cases h; exact psame_set _ _ _ (same_setSock _ _ _ rfl)
+  · simp only [Py.bind_eq_ok] at h
+    obtain ⟨p1, hp, h⟩ := h
+    have s1 := pump_same _ hp
+    split at h
+    · cases h; exact s1.trans (psame_set _ _ _ (same_setSock _ _ _ rfl))
+    · cases h; exact s1
+/-- invariant of the address table of one controller -/
+structure Inv (c : Llc) : Prop where
+  dom : ∀ a e, c.sap a = some e → a < 64
+  addrOf : ∀ a e id, c.sap a = some e → id ∈ e.socks → (c.sock id).addr = some a ∧ id < c.n
+  nodup : ∀ a e, c.sap a = some e → e.socks.Nodup
+  nonempty : ∀ a e, c.sap a = some e → 2 ≤ a → e.socks ≠ []
+  res0 : ∃ e, c.sap 0 = some e ∧ e.socks = []
+  res1 : ∃ e, c.sap 1 = some e ∧ e.socks = []
+  noRes : ∀ id a, (c.sock id).addr = some a → 2 ≤ a
+  sdp : c.snl.lookup nameSdp = some 1
+  names : ∀ nm a, (nm, a) ∈ c.snl → (nm = nameSdp ∧ a = 1) ∨
+      (2 ≤ a ∧ (c.sap a).isSome ∧ validName nm = true ∧ (wks nm = some a ∨ (wks nm = none ∧ 16 ≤ a ∧ a ≤ 31)))
+  nameKeys : (c.snl.map Prod.fst).Nodup
+  nameVals : (c.snl.map Prod.snd).Nodup
+  fresh : ∀ id, c.n ≤ id → (c.sock id).addr = none
+
+theorem same_sap {c c' : Llc} (h : SameTable c c') {a : Nat} {e' : SapEntry} (hs : c'.sap a = some e') :
+    ∃ e, c.sap a = some e ∧ e.socks = e'.socks := by
+  have := h.2.2.1 a
+  rw [hs] at this
+  cases hc : c.sap a with
+  | none => simp [hc] at this
+  | some e => simp [hc] at this; exact ⟨e, rfl, this.symm⟩
+
+theorem same_sap' {c c' : Llc} (h : SameTable c c') {a : Nat} {e : SapEntry} (hs : c.sap a = some e) :
+    ∃ e', c'.sap a = some e' ∧ e'.socks = e.socks := by
+  have := h.2.2.1 a
+  rw [hs] at this
+  cases hc : c'.sap a with
+  | none => simp [hc] at this
+  | some e' => simp [hc] at this; exact ⟨e', rfl, this⟩
+
+theorem Inv.same {c c' : Llc} (hi : Inv c) (h : SameTable c c') : Inv c' := by
+  constructor
+  · intro a e' hs; obtain ⟨e, h1, _⟩ := same_sap h hs; exact hi.dom a e h1
+  · intro a e' id hs hm
+    obtain ⟨e, h1, h2⟩ := same_sap h hs
+    have := hi.addrOf a e id h1 (h2 ▸ hm)
+    exact ⟨(h.1 id).trans this.1, Nat.lt_of_lt_of_le this.2 h.2.1⟩
+  · intro a e' hs; obtain ⟨e, h1, h2⟩ := same_sap h hs; exact h2 ▸ hi.nodup a e h1
+  · intro a e' hs ha; obtain ⟨e, h1, h2⟩ := same_sap h hs; exact h2 ▸ hi.nonempty a e h1 ha
+  · obtain ⟨e, h1, h2⟩ := hi.res0; obtain ⟨e', h3, h4⟩ := same_sap' h h1; exact ⟨e', h3, h4.trans h2⟩
+  · obtain ⟨e, h1, h2⟩ := hi.res1; obtain ⟨e', h3, h4⟩ := same_sap' h h1; exact ⟨e', h3, h4.trans h2⟩
+  · intro id a ha; exact hi.noRes id a ((h.1 id) ▸ ha)
+  · rw [h.2.2.2]; exact hi.sdp
+  · intro nm a hm
+    rw [h.2.2.2] at hm
+    rcases hi.names nm a hm with h1 | ⟨h1, h2, h3⟩
+    · exact .inl h1
+    · refine .inr ⟨h1, ?_, h3⟩
+      cases hc : c.sap a with
+      | none => simp [hc] at h2
+      | some e => obtain ⟨e', h3, _⟩ := same_sap' h hc; simp [h3]
+  · rw [h.2.2.2]; exact hi.nameKeys
+  · rw [h.2.2.2]; exact hi.nameVals
+  · intro id hn; rw [h.1 id]; exact hi.fresh id (Nat.le_trans h.2.1 hn)
+
+theorem init_inv : Inv Sap.init := by
+  constructor
+  · intro a e h; simp only [Sap.init] at h; split at h <;> first | omega | cases h
+  · intro a e id h hm; simp only [Sap.init] at h; split at h <;> cases h; simp at hm
+  · intro a e h; simp only [Sap.init] at h; split at h <;> cases h; simp
+  · intro a e h ha; simp only [Sap.init] at h; split at h <;> first | omega | cases h
+  · exact ⟨{ socks := [] }, by simp [Sap.init], rfl⟩
+  · exact ⟨{ socks := [] }, by simp [Sap.init], rfl⟩
+  · intro id a h; simp [Sap.init] at h
+  · simp [Sap.init]
+  · intro nm a h; simp [Sap.init] at h; exact .inl h
+  · simp [Sap.init]
+  · simp [Sap.init]
+  · intro id _; rfl
+
+theorem lookup_append_some {κ ν : Type} [BEq κ] {l m : List (κ × ν)} {k : κ} {v : ν}
+    (h : l.lookup k = some v) : (l ++ m).lookup k = some v := by
+  induction l with
+  | nil => simp [List.lookup] at h
+  | cons x t ih =>
+    obtain ⟨k', v'⟩ := x
+    simp only [List.cons_append, List.lookup] at h ⊢
+    split <;> simp_all
+
+theorem lookup_none_not_mem {ν : Type} {l : List (Bytes × ν)} {k : Bytes}
+    (h : l.lookup k = none) : k ∉ l.map Prod.fst := by
+  induction l with
+  | nil => simp
+  | cons x t ih =>
+    obtain ⟨k', v'⟩ := x
+    simp only [List.lookup] at h
+    split at h
+    · cases h
+    · rename_i hne
+      simp only [List.map_cons, List.mem_cons, not_or]
+      exact ⟨fun he => by simp [he] at hne, ih h⟩
+
+theorem lookup_mem {ν : Type} {l : List (Bytes × ν)} {k : Bytes} {v : ν}
+    (h : l.lookup k = some v) : (k, v) ∈ l := by
+  induction l with
+  | nil => simp [List.lookup] at h
+  | cons x t ih =>
+    obtain ⟨k', v'⟩ := x
+    simp only [List.lookup] at h
+    split at h
+    · rename_i he; cases h; simp at he; simp [he]
+    · exact List.mem_cons_of_mem _ (ih h)
+
+theorem lookup_filter {ν : Type} {l : List (Bytes × ν)} {k : Bytes} {v : ν} {f : Bytes × ν → Bool}
+    (h : l.lookup k = some v) (hf : f (k, v) = true) : (l.filter f).lookup k = some v := by
+  induction l with
+  | nil => simp [List.lookup] at h
+  | cons x t ih =>
+    obtain ⟨k', v'⟩ := x
+    simp only [List.lookup] at h
+    split at h
+    · rename_i he
+      cases h
+      simp at he
+      subst he
+      simp [List.filter, hf]
+    · rename_i hne
+      simp only [List.filter]
+      split
+      · simp only [List.lookup, hne]; exact ih h
+      · exact ih h
+
+theorem free_ge_two {c : Llc} (hi : Inv c) {a : Nat} (h : c.sap a = none) : 2 ≤ a := by
+  obtain ⟨e0, h0, _⟩ := hi.res0
+  obtain ⟨e1, h1, _⟩ := hi.res1
+  rcases a with _ | _ | a
+  · simp [h0] at h
+  · simp [h1] at h
+  · omega
+
+/-- binding an unbound socket to a free address keeps the invariant -/
+theorem inv_bindAt {c : Llc} (hi : Inv c) {id a : Nat} (hfree : c.sap a = none)
+    (hu : (c.sock id).addr = none) (hid : id < c.n) (ha : a < 64) : Inv (bindAt c id a) := by
+  have h2 := free_ge_two hi hfree
+  have hsap : ∀ b e, (bindAt c id a).sap b = some e → (b = a ∧ e.socks = [id]) ∨ (b ≠ a ∧ c.sap b = some e) := by
+    intro b e h
+    simp only [bindAt, upd] at h
+    split at h
+    · cases h; exact .inl ⟨by assumption, rfl⟩
+    · exact .inr ⟨by assumption, h⟩
+  have hsock : ∀ j, j ≠ id → (bindAt c id a).sock j = c.sock j := by
+    intro j hj; simp [bindAt, upd, hj]
+  constructor
+  · intro b e h; rcases hsap b e h with ⟨rfl, _⟩ | ⟨_, h'⟩; exact ha; exact hi.dom b e h'
+  · intro b e j h hm
+    rcases hsap b e h with ⟨rfl, he⟩ | ⟨hne, h'⟩
+    · rw [he] at hm; simp at hm; subst hm; exact ⟨bindAt_addr c j b, hid⟩
+    · have := hi.addrOf b e j h' hm
+      have hj : j ≠ id := by intro he; subst he; rw [hu] at this; cases this.1
+      rw [hsock j hj]; exact this
+  · intro b e h; rcases hsap b e h with ⟨_, he⟩ | ⟨_, h'⟩; simp [he]; exact hi.nodup b e h'
+  · intro b e h hb; rcases hsap b e h with ⟨_, he⟩ | ⟨_, h'⟩; simp [he]; exact hi.nonempty b e h' hb
+  · obtain ⟨e, h0, h1⟩ := hi.res0; exact ⟨e, by simp only [bindAt, upd]; rw [if_neg (by omega)]; exact h0, h1⟩
+  · obtain ⟨e, h0, h1⟩ := hi.res1; exact ⟨e, by simp only [bindAt, upd]; rw [if_neg (by omega)]; exact h0, h1⟩
+  · intro j b hb
+    by_cases hj : j = id
+    · subst hj; rw [bindAt_addr] at hb; cases hb; exact h2
+    · rw [hsock j hj] at hb; exact hi.noRes j b hb
+  · exact hi.sdp
+  · intro nm b hm
+    rcases hi.names nm b hm with h | ⟨h1, h3, h4⟩
+    · exact .inl h
+    · refine .inr ⟨h1, ?_, h4⟩
+      simp only [bindAt, upd]; split <;> simp_all
+  · exact hi.nameKeys
+  · exact hi.nameVals
+  · intro j hj
+    have hj' : c.n ≤ j := hj
+    rw [hsock j (by omega)]; exact hi.fresh j hj'
+
+/-- ... and recording the service name for it as well -/
+theorem inv_bindName {c : Llc} (hi : Inv c) {id a : Nat} {nm : Bytes} (hfree : c.sap a = none)
+    (hu : (c.sock id).addr = none) (hid : id < c.n) (ha : a < 64)
+    (hv : validName nm = true) (hl : c.snl.lookup nm = none)
+    (hw : wks nm = some a ∨ (wks nm = none ∧ 16 ≤ a ∧ a ≤ 31)) :
+    Inv { bindAt c id a with snl := c.snl ++ [(nm, a)] } := by
+  have h2 := free_ge_two hi hfree
+  have hb := inv_bindAt hi hfree hu hid ha
+  constructor
+  · exact hb.dom
+  · exact hb.addrOf
+  · exact hb.nodup
+  · exact hb.nonempty
+  · exact hb.res0
+  · exact hb.res1
+  · exact hb.noRes
+  · exact lookup_append_some hi.sdp
+  · intro nm' b hm
+    simp only [List.mem_append, List.mem_singleton, Prod.mk.injEq] at hm
+    rcases hm with hm | ⟨rfl, rfl⟩
+    · exact hb.names nm' b hm
+    · exact .inr ⟨h2, by simp [bindAt, upd], hv, hw⟩
+  · simp only [List.map_append, List.map_cons, List.map_nil]
+    rw [List.nodup_append]
+    refine ⟨hi.nameKeys, by simp, ?_⟩
+    intro x hx y hy
+    simp at hy; subst hy
+    intro he; subst he
+    exact lookup_none_not_mem hl hx
+  · simp only [List.map_append, List.map_cons, List.map_nil]
+    rw [List.nodup_append]
+    refine ⟨hi.nameVals, by simp, ?_⟩
+    intro x hx y hy
+    simp at hy; subst hy
+    intro he; subst he
+    simp only [List.mem_map] at hx
+    obtain ⟨⟨n0, a0⟩, hm, hq⟩ := hx
+    simp only at hq
+    subst hq
+    rcases hi.names n0 a0 hm with ⟨_, h1⟩ | ⟨_, h3, _⟩
+    · omega
+    · simp [hfree] at h3
+  · exact hb.fresh
+/-- shape of a successful bind -/
+theorem bind_ok_form {c c' : Llc} {id : Nat} {arg : BindArg} (h : bind c id arg = .ok c') :
+    (c.sock id).addr = none ∧ ∃ a, c.sap a = none ∧ a < 64 ∧
+      (c' = bindAt c id a ∨
+       ∃ nm, arg = .name nm ∧ validName nm = true ∧ c.snl.lookup nm = none ∧
+         (wks nm = some a ∨ (wks nm = none ∧ 16 ≤ a ∧ a ≤ 31)) ∧
+         c' = { bindAt c id a with snl := c.snl ++ [(nm, a)] }) := by
+  unfold bind at h
+  cases hu : (c.sock id).addr with
+  | some a0 => simp [hu] at h
+  | none =>
+  refine ⟨rfl, ?_⟩
+  simp only [hu, Option.isSome_none, Bool.false_eq_true, ↓reduceIte] at h
+  cases arg with
+  | none =>
+    simp only at h
+    cases hf : freeIn c 32 32 with
+    | none => simp [hf] at h
+    | some a =>
+      simp only [hf] at h
+      cases h
+      obtain ⟨h1, h2, h3⟩ := freeIn_some hf
+      exact ⟨a, h3, by omega, .inl rfl⟩
+  | addr a =>
+    simp only at h
+    by_cases h0 : a < 0 ∨ a > 63
+    · simp [h0] at h
+    · simp only [h0, ↓reduceIte] at h
+      by_cases h1 : 32 ≤ a ∨ (c.sock id).kind = .raw
+      · simp only [h1, ↓reduceIte] at h
+        cases hs : c.sap a.toNat with
+        | none =>
+          simp only [hs, Option.isNone_none, ↓reduceIte] at h
+          cases h
+          exact ⟨a.toNat, hs, by omega, .inl rfl⟩
+        | some e => simp [hs] at h
+      · simp [h1] at h
+  | name nm =>
+    simp only at h
+    cases hv : validName nm with
+    | false => simp [hv] at h
+    | true =>
+      simp only [hv, Bool.true_eq_false, ↓reduceIte] at h
+      cases hl : c.snl.lookup nm with
+      | some a0 => simp [hl] at h
+      | none =>
+        simp only [hl, Option.isSome_none, Bool.false_eq_true, ↓reduceIte] at h
+        cases hw : wks nm with
+        | some a =>
+          simp only [hw] at h
+          cases hs : c.sap a with
+          | some e => simp [hs] at h
+          | none =>
+            simp only [hs, Option.isSome_none, Bool.false_eq_true, ↓reduceIte] at h
+            cases h
+            have ha : a < 64 := by
+              unfold wks at hw
+              split at hw
+              · cases hw; omega
+              · split at hw
+                · cases hw; omega
+                · cases hw
+            exact ⟨a, hs, ha, .inr ⟨nm, rfl, hv, hl, .inl hw, rfl⟩⟩
+        | none =>
+          simp only [hw] at h
+          cases hf : freeIn c 16 16 with
+          | none => simp [hf] at h
+          | some a =>
+            simp only [hf] at h
+            cases h
+            obtain ⟨h1, h2, h3⟩ := freeIn_some hf
+            exact ⟨a, h3, by omega, .inr ⟨nm, rfl, hv, hl, .inr ⟨hw, h1, by omega⟩, rfl⟩⟩
+
+theorem inv_bind {c c' : Llc} (hi : Inv c) {id : Nat} {arg : BindArg} (hid : id < c.n)
+    (h : bind c id arg = .ok c') : Inv c' := by
+  obtain ⟨hu, a, hs, ha, h1 | ⟨nm, _, hv, hl, hw, h1⟩⟩ := bind_ok_form h
+  · subst h1; exact inv_bindAt hi hs hu hid ha
+  · subst h1; exact inv_bindName hi hs hu hid ha hv hl hw
+
+theorem bind_n {c c' : Llc} {id : Nat} {arg : BindArg} (h : bind c id arg = .ok c') : c'.n = c.n := by
+  unfold bind at h
+  repeat' split at h
+  all_goals first | (cases h; done) | (cases h; rfl)
+
+theorem inv_bindIfUnbound {c c' : Llc} (hi : Inv c) {id : Nat} (hid : id < c.n)
+    (h : bindIfUnbound c id = .ok c') : Inv c' ∧ c'.n = c.n := by
+  unfold bindIfUnbound at h
+  split at h
+  · cases h; exact ⟨hi, rfl⟩
+  · exact ⟨inv_bind hi hid h, bind_n h⟩
+
+theorem same_newSocket (c : Llc) (hi : Inv c) (k : Kind) : SameTable c (newSocket c k).1 := by
+  refine ⟨fun j => ?_, by simp [newSocket], fun _ => rfl, rfl⟩
+  simp only [newSocket, upd]
+  split
+  · subst_vars; simp [hi.fresh c.n (Nat.le_refl _)]
+  · rfl
+
+/-- closing: the invariant survives `remove_socket` -/
+theorem inv_removeSocket {c : Llc} (hi : Inv c) {id a : Nat} {e : SapEntry} (hs : c.sap a = some e)
+    (ha : (c.sock id).addr = some a) {s' : Sock} (hs' : s'.addr = (c.sock id).addr) :
+    Inv (removeSocket c id a e s') := by
+  have h2 : 2 ≤ a := hi.noRes id a ha
+  have hc1 : SameTable c (setSock c id s') := same_setSock c id s' hs'
+  have hi1 := hi.same hc1
+  have hs1 : (setSock c id s').sap a = some e := hs
+  unfold removeSocket
+  simp only
+  split
+  · -- last socket: the address and its names are freed
+    rename_i hrest
+    have hsap : ∀ b e', (upd (setSock c id s').sap a none) b = some e' → b ≠ a ∧ (setSock c id s').sap b = some e' := by
+      intro b e' h
+      simp only [upd] at h
+      split at h
+      · cases h
+      · exact ⟨by assumption, h⟩
+    constructor
+    · intro b e' h; exact hi1.dom b e' (hsap b e' h).2
+    · intro b e' j h hm; exact hi1.addrOf b e' j (hsap b e' h).2 hm
+    · intro b e' h; exact hi1.nodup b e' (hsap b e' h).2
+    · intro b e' h hb; exact hi1.nonempty b e' (hsap b e' h).2 hb
+    · obtain ⟨e0, h0, h1⟩ := hi1.res0; exact ⟨e0, by simp only [upd]; rw [if_neg (by omega)]; exact h0, h1⟩
+    · obtain ⟨e0, h0, h1⟩ := hi1.res1; exact ⟨e0, by simp only [upd]; rw [if_neg (by omega)]; exact h0, h1⟩
+    · exact hi1.noRes
+    · exact lookup_filter hi1.sdp (by simp; omega)
+    · intro nm b hm
+      simp only [List.mem_filter, bne_iff_ne, ne_eq] at hm
+      rcases hi1.names nm b hm.1 with h | ⟨h1, h3, h4⟩
+      · exact .inl h
+      · refine .inr ⟨h1, ?_, h4⟩
+        simp only [upd]; rw [if_neg hm.2]; exact h3
+    · exact (List.filter_sublist.map _).nodup hi1.nameKeys
+    · exact (List.filter_sublist.map _).nodup hi1.nameVals
+    · exact hi1.fresh
+  · rename_i hrest
+    have hsap : ∀ b e', (upd (setSock c id s').sap a (some { e with socks := e.socks.erase id })) b = some e' →
+        (b = a ∧ e'.socks = e.socks.erase id) ∨ (b ≠ a ∧ (setSock c id s').sap b = some e') := by
+      intro b e' h
+      simp only [upd] at h
+      split at h
+      · cases h; exact .inl ⟨by assumption, rfl⟩
+      · exact .inr ⟨by assumption, h⟩
+    constructor
+    · intro b e' h; rcases hsap b e' h with ⟨rfl, _⟩ | ⟨_, h'⟩; exact hi1.dom _ e hs1; exact hi1.dom b e' h'
+    · intro b e' j h hm
+      rcases hsap b e' h with ⟨rfl, he⟩ | ⟨_, h'⟩
+      · rw [he] at hm; exact hi1.addrOf _ e j hs1 (List.mem_of_mem_erase hm)
+      · exact hi1.addrOf b e' j h' hm
+    · intro b e' h
+      rcases hsap b e' h with ⟨rfl, he⟩ | ⟨_, h'⟩
+      · rw [he]; exact (List.erase_sublist).nodup (hi1.nodup _ e hs1)
+      · exact hi1.nodup b e' h'
+    · intro b e' h hb
+      rcases hsap b e' h with ⟨rfl, he⟩ | ⟨_, h'⟩
+      · rw [he]; exact hrest
+      · exact hi1.nonempty b e' h' hb
+    · obtain ⟨e0, h0, h1⟩ := hi1.res0; exact ⟨e0, by simp only [upd]; rw [if_neg (by omega)]; exact h0, h1⟩
+    · obtain ⟨e0, h0, h1⟩ := hi1.res1; exact ⟨e0, by simp only [upd]; rw [if_neg (by omega)]; exact h0, h1⟩
+    · exact hi1.noRes
+    · exact hi1.sdp
+    · intro nm b hm
+      rcases hi1.names nm b hm with h | ⟨h1, h3, h4⟩
+      · exact .inl h
+      · refine .inr ⟨h1, ?_, h4⟩
+        simp only [upd]; split <;> simp_all
+    · exact hi1.nameKeys
+    · exact hi1.nameVals
+    · exact hi1.fresh
+def PInv (p : Pair) : Prop := Inv p.a ∧ Inv p.b
+
+theorem PInv.same {p p' : Pair} (h : PInv p) (hs : PSame p p') : PInv p' := ⟨h.1.same hs.1, h.2.same hs.2⟩
+theorem PInv.get {p : Pair} (h : PInv p) (x : Side) : Inv (p.get x) := by cases x <;> simp [Pair.get] <;> first | exact h.1 | exact h.2
+theorem PInv.set {p : Pair} (h : PInv p) (x : Side) {c : Llc} (hc : Inv c) : PInv (p.set x c) := by
+  cases x <;> simp only [Pair.set] <;> first | exact ⟨hc, h.2⟩ | exact ⟨h.1, hc⟩
+theorem get_set (p : Pair) (x : Side) (c : Llc) : (p.set x c).get x = c := by cases x <;> rfl
+theorem PSame.get {p p' : Pair} (h : PSame p p') (x : Side) : SameTable (p.get x) (p'.get x) := by
+  cases x <;> simp [Pair.get] <;> first | exact h.1 | exact h.2
+
+/-- replacing a socket record by one with the same address -/
+theorem psame_setSock (p : Pair) (x : Side) (id : Nat) (s : Sock) (h : s.addr = ((p.get x).sock id).addr) :
+    PSame p (p.set x (setSock (p.get x) id s)) := psame_set p x _ (same_setSock _ _ _ h)
+
+theorem pinv_withBound {p : Pair} {x : Side} {id : Nat} {k : Pair → Step} {r : Pair × Py Out}
+    (hp : PInv p) (hid : id < (p.get x).n) (h : withBound p x id k = .ok r)
+    (hk : ∀ p1, PInv p1 → id < (p1.get x).n → k p1 = .ok r → PInv r.1) : PInv r.1 := by
+  unfold withBound at h
+  split at h
+  · rename_i c hb
+    obtain ⟨h1, h2⟩ := inv_bindIfUnbound (hp.get x) hid hb
+    exact hk _ (hp.set x h1) (by rw [get_set, h2]; exact hid) h
+  · cases h; exact hp
+
+theorem apiListen_inv {p : Pair} {x : Side} {id bl : Nat} {r : Pair × Py Out} (hp : PInv p)
+    (hid : id < (p.get x).n) (h : apiListen p x id bl = .ok r) : PInv r.1 := by
+  unfold apiListen at h
+  split at h
+  · cases h; exact hp
+  · refine pinv_withBound hp hid h ?_
+    intro p1 hp1 _ hk
+    dsimp only at hk
+    repeat' split at hk
+    all_goals first | (cases hk; exact hp1) | (cases hk; exact hp1.same (psame_setSock _ _ _ _ rfl))
+
+theorem apiSendto_inv {p : Pair} {x : Side} {id : Nat} {m : Bytes} {d : Nat} {r : Pair × Py Out} (hp : PInv p)
+    (hid : id < (p.get x).n) (h : apiSendto p x id m d = .ok r) : PInv r.1 := by
+  unfold apiSendto at h
+  split at h
+  · cases h; exact hp
+  · refine pinv_withBound hp hid h ?_
+    intro p1 hp1 _ hk
+    dsimp only at hk
+    repeat' split at hk
+    all_goals first | (cases hk; done) | (cases hk; exact hp1) | (cases hk; exact hp1.same (psame_setSock _ _ _ _ rfl))
+  · repeat' split at h
+    all_goals first | (cases h; done) | (cases h; exact hp)
+
+theorem apiSendPdu_inv {p : Pair} {x : Side} {id : Nat} {q : Pdu} {r : Pair × Py Out} (hp : PInv p)
+    (hid : id < (p.get x).n) (h : apiSendPdu p x id q = .ok r) : PInv r.1 := by
+  unfold apiSendPdu at h
+  split at h
+  · cases h
+  · refine pinv_withBound hp hid h ?_
+    intro p1 hp1 _ hk
+    dsimp only at hk
+    repeat' split at hk
+    all_goals first | (cases hk; done) | (cases hk; exact hp1) | (cases hk; exact hp1.same (psame_setSock _ _ _ _ rfl))
+
+theorem apiConnect_inv {p : Pair} {x : Side} {id : Nat} {d : Dest} {r : Pair × Py Out} (hp : PInv p)
+    (hid : id < (p.get x).n) (h : apiConnect p x id d = .ok r) : PInv r.1 := by
+  unfold apiConnect at h
+  refine pinv_withBound hp hid h ?_
+  intro p1 hp1 _ hk
+  simp only at hk
+  split at hk
+  · cases hk; exact hp1
+  · repeat' split at hk
+    all_goals first | (cases hk; done) | (cases hk; exact hp1) | (cases hk; exact hp1.same (psame_setSock _ _ _ _ rfl))
+  · repeat' split at hk
+    all_goals first | (cases hk; done) | (cases hk; exact hp1) | skip
+    all_goals
+      simp only [Py.bind_eq_ok] at hk
+      obtain ⟨r1, hpop, hk⟩ := hk
+      have s0 := popOrPump_same hpop
+      have s1 : PSame p1 r1.1 := (psame_set _ _ _ (same_setSock _ _ _ (by rfl))).trans s0
+      have hr1 := hp1.same s1
+      repeat' split at hk
+      all_goals first | (cases hk; exact hr1) | (cases hk; exact hr1.same (psame_setSock _ _ _ _ rfl))
+
+/-- `accept`: the new socket joins the SAP of the listening socket -/
+theorem inv_accept {c : Llc} (hi : Inv c) {id a : Nat} {e : SapEntry} {s' child : Sock}
+    (hid : id < c.n) (hs : c.sap a = some e) (ha : (c.sock id).addr = some a)
+    (hs' : s'.addr = some a) (hc : child.addr = some a) :
+    Inv { c with n := c.n + 1, sock := upd (upd c.sock id s') c.n child,
+                 sap := upd c.sap a (some { e with socks := c.n :: e.socks }) } := by
+  have h2 : 2 ≤ a := hi.noRes id a ha
+  have hsock : ∀ j, (upd (upd c.sock id s') c.n child j).addr =
+      if j = c.n then some a else (c.sock j).addr := by
+    intro j
+    simp only [upd]
+    split
+    · exact hc
+    · split
+      · subst_vars; rw [hs', ha]
+      · rfl
+  have hsap : ∀ b e', upd c.sap a (some { e with socks := c.n :: e.socks }) b = some e' →
+      (b = a ∧ e'.socks = c.n :: e.socks) ∨ (b ≠ a ∧ c.sap b = some e') := by
+    intro b e' h
+    simp only [upd] at h
+    split at h
+    · cases h; exact .inl ⟨by assumption, rfl⟩
+    · exact .inr ⟨by assumption, h⟩
+  constructor
+  · intro b e' h; rcases hsap b e' h with ⟨rfl, _⟩ | ⟨_, h'⟩; exact hi.dom _ e hs; exact hi.dom b e' h'
+  · intro b e' j h hm
+    show (upd (upd c.sock id s') c.n child j).addr = some b ∧ j < c.n + 1
+    rw [hsock j]
+    rcases hsap b e' h with ⟨rfl, he⟩ | ⟨hne, h'⟩
+    · rw [he] at hm
+      simp only [List.mem_cons] at hm
+      rcases hm with rfl | hm
+      · simp
+      · have := hi.addrOf _ e j hs hm
+        rw [if_neg (by omega)]; exact ⟨this.1, by omega⟩
+    · have := hi.addrOf b e' j h' hm
+      rw [if_neg (by omega)]; exact ⟨this.1, by omega⟩
+  · intro b e' h
+    rcases hsap b e' h with ⟨rfl, he⟩ | ⟨_, h'⟩
+    · rw [he]
+      refine List.nodup_cons.mpr ⟨?_, hi.nodup _ e hs⟩
+      intro hm; have := (hi.addrOf _ e c.n hs hm).2; omega
+    · exact hi.nodup b e' h'
+  · intro b e' h hb
+    rcases hsap b e' h with ⟨_, he⟩ | ⟨_, h'⟩
+    · rw [he]; simp
+    · exact hi.nonempty b e' h' hb
+  · obtain ⟨e0, h0, h1⟩ := hi.res0; exact ⟨e0, by simp only [upd]; rw [if_neg (by omega)]; exact h0, h1⟩
+  · obtain ⟨e0, h0, h1⟩ := hi.res1; exact ⟨e0, by simp only [upd]; rw [if_neg (by omega)]; exact h0, h1⟩
+  · intro j b hb
+    have hb : (upd (upd c.sock id s') c.n child j).addr = some b := hb
+    rw [hsock j] at hb
+    split at hb
+    · cases hb; exact h2
+    · exact hi.noRes j b hb
+  · exact hi.sdp
+  · intro nm b hm
+    rcases hi.names nm b hm with h | ⟨h1, h3, h4⟩
+    · exact .inl h
+    · refine .inr ⟨h1, ?_, h4⟩
+      simp only [upd]; split <;> simp_all
+  · exact hi.nameKeys
+  · exact hi.nameVals
+  · intro j hj
+    have hj : c.n + 1 ≤ j := hj
+    show (upd (upd c.sock id s') c.n child j).addr = none
+    rw [hsock j, if_neg (by omega)]
+    exact hi.fresh j (by omega)
+
+/-- a new socket that carries an address but is in no SAP (only on the `AttributeError` path of `accept`) -/
+theorem inv_orphan {c : Llc} (hi : Inv c) {id a : Nat} {s' child : Sock}
+    (hid : id < c.n) (hs' : s'.addr = (c.sock id).addr) (hc : child.addr = some a) (h2 : 2 ≤ a) :
+    Inv { c with n := c.n + 1, sock := upd (upd c.sock id s') c.n child } := by
+  have hsock : ∀ j, (upd (upd c.sock id s') c.n child j).addr =
+      if j = c.n then some a else (c.sock j).addr := by
+    intro j
+    simp only [upd]
+    split
+    · exact hc
+    · split
+      · subst_vars; rw [hs']
+      · rfl
+  constructor
+  · exact hi.dom
+  · intro b e j h hm
+    show (upd (upd c.sock id s') c.n child j).addr = some b ∧ j < c.n + 1
+    have := hi.addrOf b e j h hm
+    rw [hsock j, if_neg (by omega)]; exact ⟨this.1, by omega⟩
+  · exact hi.nodup
+  · exact hi.nonempty
+  · exact hi.res0
+  · exact hi.res1
+  · intro j b hb
+    have hb : (upd (upd c.sock id s') c.n child j).addr = some b := hb
+    rw [hsock j] at hb
+    split at hb
+    · cases hb; exact h2
+    · exact hi.noRes j b hb
+  · exact hi.sdp
+  · exact hi.names
+  · exact hi.nameKeys
+  · exact hi.nameVals
+  · intro j hj
+    have hj : c.n + 1 ≤ j := hj
+    show (upd (upd c.sock id s') c.n child j).addr = none
+    rw [hsock j, if_neg (by omega)]
+    exact hi.fresh j (by omega)
+
+theorem apiAccept_inv {p : Pair} {x : Side} {id : Nat} {r : Pair × Py Out} (hp : PInv p)
+    (hid : id < (p.get x).n) (h : apiAccept p x id = .ok r) : PInv r.1 := by
+  unfold apiAccept at h
+  simp only at h
+  repeat' split at h
+  all_goals first | (cases h; exact hp) | skip
+  simp only [Py.bind_eq_ok] at h
+  obtain ⟨r1, hpop, h⟩ := h
+  have s0 := popOrPump_same hpop
+  have s1 : PSame p r1.1 := (psame_set _ _ _ (same_setSock _ _ _ (by rfl))).trans s0
+  have hr1 := hp.same s1
+  have hn : id < (r1.1.get x).n := Nat.lt_of_lt_of_le hid (s1.get x).2.1
+  repeat' split at h
+  all_goals first | (cases h; done) | (cases h; exact hr1) | skip
+  · -- SAP of the listener has gone: `AttributeError`, the new socket exists unbound in no SAP
+    rename_i a haddr _ hsap
+    cases h
+    refine hr1.set x ?_
+    exact inv_orphan (hr1.get x) hn rfl (a := a) rfl ((hr1.get x).noRes id a haddr)
+  · rename_i a haddr _ e hsap
+    cases h
+    refine hr1.set x ?_
+    have hsap : (r1.1.get x).sap a = some e := hsap
+    exact inv_accept (hr1.get x) hn hsap haddr haddr rfl
+
+theorem apiRecvfrom_inv {p : Pair} {x : Side} {id : Nat} {r : Pair × Py Out} (hp : PInv p)
+    (h : apiRecvfrom p x id = .ok r) : PInv r.1 := by
+  unfold apiRecvfrom at h
+  simp only at h
+  repeat' split at h
+  all_goals first | (cases h; exact hp) | skip
+  all_goals
+    simp only [Py.bind_eq_ok] at h
+    obtain ⟨r1, hpop, h⟩ := h
+    have hr1 := hp.same (popOrPump_same hpop)
+    repeat' split at h
+    all_goals first | (cases h; exact hr1) | (cases h; exact hr1.same (psame_setSock _ _ _ _ rfl))
+
+theorem apiResolve_inv {p : Pair} {x : Side} {nm : Bytes} {r : Pair × Py Out} (hp : PInv p)
+    (h : apiResolve p x nm = .ok r) : PInv r.1 := by
+  unfold apiResolve at h
+  simp only at h
+  repeat' split at h
+  all_goals first | (cases h; exact hp) | skip
+  simp only [Py.bind_eq_ok] at h
+  obtain ⟨p1, hpump, h⟩ := h
+  have s1 : PSame p p1 := (psame_set _ _ _ (same_sd _ _)).trans (pump_same _ hpump)
+  repeat' split at h
+  all_goals first | (cases h; done) | (cases h; exact hp.same s1)
+
+theorem sockClose_same {p p' : Pair} {x : Side} {id : Nat} (h : sockClose p x id = .ok p') : PSame p p' := by
+  unfold sockClose at h
+  simp only at h
+  repeat' split at h
+  all_goals first | (cases h; done) | (cases h; exact psame_setSock _ _ _ _ rfl) | skip
+  simp only [Py.bind_eq_ok] at h
+  obtain ⟨r1, hpop, h⟩ := h
+  cases h
+  have s0 := popOrPump_same hpop
+  exact ((psame_set _ _ _ (same_setSock _ _ _ (by rfl))).trans s0).trans (psame_setSock _ _ _ _ rfl)
+
+theorem apiClose_inv {p : Pair} {x : Side} {id : Nat} {r : Pair × Py Out} (hp : PInv p)
+    (h : apiClose p x id = .ok r) : PInv r.1 := by
+  unfold apiClose at h
+  split at h
+  · simp only [Py.bind_eq_ok] at h
+    obtain ⟨p1, hc, h⟩ := h
+    cases h; exact hp.same (sockClose_same hc)
+  · rename_i a haddr
+    split at h
+    · cases h; exact hp
+    · simp only [Py.bind_eq_ok] at h
+      obtain ⟨p1, hc, h⟩ := h
+      have s1 := sockClose_same hc
+      have hp1 := hp.same s1
+      split at h
+      · cases h; exact hp1
+      · rename_i e1 hsap
+        cases h
+        refine hp1.set x ?_
+        have ha : ((p1.get x).sock id).addr = some a := by rw [(s1.get x).1 id]; exact haddr
+        exact inv_removeSocket (hp1.get x) hsap ha rfl
+
+theorem applyOp_inv {p : Pair} {op : Op} {r : Pair × Py Out} (hp : PInv p) (hw : op.wf p = true)
+    (h : applyOp p op = .ok r) : PInv r.1 := by
+  cases op with
+  | socket x k => cases h; exact hp.same (psame_set _ _ _ (same_newSocket _ (hp.get x) k))
+  | bind x id arg =>
+    have hid : id < (p.get x).n := (by have := hw; simp only [Op.wf, Op.sock?, Op.side] at this; exact of_decide_eq_true this)
+    simp only [applyOp, apiBind] at h
+    split at h
+    · rename_i c hb; cases h; exact hp.set x (inv_bind (hp.get x) hid hb)
+    · cases h; exact hp
+  | listen x id bl => exact apiListen_inv hp ((by have := hw; simp only [Op.wf, Op.sock?, Op.side] at this; exact of_decide_eq_true this)) h
+  | connect x id d => exact apiConnect_inv hp ((by have := hw; simp only [Op.wf, Op.sock?, Op.side] at this; exact of_decide_eq_true this)) h
+  | accept x id => exact apiAccept_inv hp ((by have := hw; simp only [Op.wf, Op.sock?, Op.side] at this; exact of_decide_eq_true this)) h
+  | sendto x id m d => exact apiSendto_inv hp ((by have := hw; simp only [Op.wf, Op.sock?, Op.side] at this; exact of_decide_eq_true this)) h
+  | sendpdu x id d s m => exact apiSendPdu_inv hp ((by have := hw; simp only [Op.wf, Op.sock?, Op.side] at this; exact of_decide_eq_true this)) h
+  | recvfrom x id => exact apiRecvfrom_inv hp h
+  | resolve x nm => exact apiResolve_inv hp h
+  | close x id => exact apiClose_inv hp h
+  | xfer x =>
+    simp only [applyOp, apiXfer, Py.bind_eq_ok] at h
+    obtain ⟨r1, hx, h⟩ := h
+    cases h
+    exact hp.same (xfer_same (p' := r1.1) (m := r1.2) hx)
+
+theorem apply_inv {p : Pair} {op : Op} {r : Pair × Py Out} (hp : PInv p) (h : apply p op = .ok r) : PInv r.1 := by
+  unfold apply at h
+  split at h
+  · rename_i hw; exact applyOp_inv hp hw h
+  · cases h
+
+/-- the invariant holds in every state reachable by any operation history -/
+theorem run_inv : ∀ (ops : List Op) {p : Pair}, PInv p → PInv (run p ops)
+  | [], _, hp => hp
+  | op :: t, p, hp => by
+    unfold run
+    split
+    · rename_i p1 r h; exact run_inv t (apply_inv (r := (p1, r)) hp h)
+    · exact hp
+
+theorem reach_inv (ops : List Op) : PInv (run Pair.init ops) := run_inv ops ⟨init_inv, init_inv⟩
+/-! ## routing -/
+
+theorem setSock_other (c : Llc) (id j : Nat) (s : Sock) (h : j ≠ id) : (setSock c id s).sock j = c.sock j := by
+  simp [setSock, upd, h]
+
+theorem target_mem {c : Llc} {e : SapEntry} {p : Pdu} {j : Nat} (h : target c e p = some j) : j ∈ e.socks := by
+  unfold target at h
+  split at h <;> exact List.mem_of_find?_eq_some h
+
+/-- `ServiceAccessPoint.enqueue` changes at most the socket it selects -/
+theorem sapEnqueue_touch {c c' : Llc} {a : Nat} {e : SapEntry} {p : Pdu}
+    (h : sapEnqueue c a e p = .ok c') {j : Nat} (hj : c'.sock j ≠ c.sock j) :
+    target c e p = some j ∧ sockEnqueue (c.sock j) p = some (c'.sock j) := by
+  unfold sapEnqueue at h
+  split at h
+  · rename_i id ht
+    split at h
+    · rename_i s' hq
+      cases h
+      by_cases hji : j = id
+      · subst hji; exact ⟨ht, by simpa [setSock, upd] using hq⟩
+      · exact absurd (setSock_other _ _ _ _ hji) hj
+    · cases h
+  · repeat' split at h
+    all_goals (cases h; exact absurd rfl hj)
+
+/-- `dispatch` changes at most one socket: the one selected at the destination SAP
+(for connect-by-name: at the SAP registered under the service name) -/
+theorem dispatch_touch {c c' : Llc} {p : Pdu} (h : dispatch c p = .ok c') {j : Nat} (hj : c'.sock j ≠ c.sock j) :
+    ∃ a e, c.sap a = some e ∧ j ∈ e.socks ∧
+      ((a = p.dsap ∧ sockEnqueue (c.sock j) p = some (c'.sock j)) ∨
+       (∃ ss nm, p = .conn 1 ss (some nm) ∧ c.snl.lookup nm = some a ∧ (c.sock j).st = .listen)) := by
+  unfold dispatch at h
+  split at h
+  · cases h; exact absurd rfl hj
+  · rename_i ss sn
+    split at h
+    · cases h; exact absurd rfl hj
+    · rename_i addr hl
+      split at h
+      · cases h; exact absurd rfl hj
+      · rename_i e hs
+        split at hs
+        · cases hs
+        · split at h
+          · cases h; exact absurd rfl hj
+          · obtain ⟨ht, hq⟩ := sapEnqueue_touch h hj
+            cases sn with
+            | none => simp at hl
+            | some nm =>
+              simp only [Option.bind_some] at hl
+              refine ⟨addr, e, hs, target_mem ht, .inr ⟨ss, nm, rfl, hl, ?_⟩⟩
+              simp only [target, Pdu.isConn, ↓reduceIte] at ht
+              simpa using List.find?_some ht
+  · split at h
+    · cases h; exact absurd rfl hj
+    · split at h
+      · cases h; exact absurd rfl hj
+      · rename_i e hs
+        obtain ⟨ht, hq⟩ := sapEnqueue_touch h hj
+        exact ⟨_, e, hs, target_mem ht, .inl ⟨rfl, hq⟩⟩
+
+/-- a UI PDU is delivered only to a socket bound at its destination address;
+a raw or logical-data-link socket that takes it gets exactly that PDU appended -/
+theorem ui_delivery {c c' : Llc} (hi : Inv c) {d s : Nat} {m : Bytes} (h : dispatch c (.ui d s m) = .ok c')
+    {j : Nat} (hj : c'.sock j ≠ c.sock j) :
+    (c.sock j).addr = some d ∧
+    ((c.sock j).kind ≠ .dlc → c'.sock j = { c.sock j with recvq := (c.sock j).recvq ++ [.ui d s m] }) := by
+  obtain ⟨a, e, hs, hm, h1 | ⟨_, _, h1, _⟩⟩ := dispatch_touch h hj
+  · obtain ⟨rfl, hq⟩ := h1
+    refine ⟨(hi.addrOf _ e j hs hm).1, fun hk => ?_⟩
+    unfold sockEnqueue at hq
+    split at hq
+    · simp only [appendRecv] at hq
+      split at hq
+      · exact (Option.some.inj hq).symm
+      · exact absurd (Option.some.inj hq).symm hj
+    · simp only at hq
+      split at hq
+      · exact absurd (Option.some.inj hq).symm hj
+      · simp only [appendRecv] at hq
+        split at hq
+        · exact (Option.some.inj hq).symm
+        · exact absurd (Option.some.inj hq).symm hj
+    · rename_i hk'; exact absurd hk' hk
+  · cases h1
+
+/-- connect-by-name: only a listening socket bound at the address registered under
+the name can receive the request -/
+theorem by_name_exact {c c' : Llc} (hi : Inv c) {ss : Nat} {nm : Bytes}
+    (h : dispatch c (.conn 1 ss (some nm)) = .ok c') {j : Nat} (hj : c'.sock j ≠ c.sock j) :
+    ∃ a, c.snl.lookup nm = some a ∧ (c.sock j).addr = some a ∧ (c.sock j).st = .listen := by
+  obtain ⟨a, e, hs, hm, h1 | ⟨ss', nm', h1, h2, h3⟩⟩ := dispatch_touch h hj
+  · -- the direct branch is impossible: SAP 1 has no sockets
+    obtain ⟨rfl, _⟩ := h1
+    obtain ⟨e1, h4, h5⟩ := hi.res1
+    simp only [Pdu.dsap] at hs
+    rw [h4] at hs; cases hs
+    rw [h5] at hm; cases hm
+  · cases h1
+    exact ⟨a, h2, (hi.addrOf a e j hs hm).1, h3⟩
+
+/-- ... and when the name is not registered nothing is delivered, the peer gets DM(reason 2) -/
+theorem by_name_absent {c : Llc} {ss : Nat} {nm : Bytes} (h : c.snl.lookup nm = none) :
+    dispatch c (.conn 1 ss (some nm)) =
+      .ok { c with sd := { c.sd with dmpdu := c.sd.dmpdu ++ [.dm ss 1 2] } } := by
+  simp [dispatch, h]
+
+/-- a registered name always points to a live SAP (no stale names) -/
+theorem name_live {c : Llc} (hi : Inv c) {nm : Bytes} {a : Nat} (h : c.snl.lookup nm = some a) :
+    (nm = nameSdp ∧ a = 1) ∨ (2 ≤ a ∧ ∃ e, c.sap a = some e ∧ e.socks ≠ [] ∧ ∀ j ∈ e.socks, (c.sock j).addr = some a) := by
+  rcases hi.names nm a (lookup_mem h) with h1 | ⟨h1, h2, _⟩
+  · exact .inl h1
+  · cases hs : c.sap a with
+    | none => simp [hs] at h2
+    | some e => exact .inr ⟨h1, e, rfl, hi.nonempty a e hs h1, fun j hj => (hi.addrOf a e j hs hj).1⟩
+
+theorem dictSet_lookup {ν : Type} (k : Bytes) (v : ν) (l : List (Bytes × ν)) : (dictSet k v l).lookup k = some v := by
+  induction l with
+  | nil => simp [dictSet]
+  | cons x t ih =>
+    obtain ⟨k', v'⟩ := x
+    simp only [dictSet]
+    split
+    · rename_i he; simp at he; subst he; simp [List.lookup]
+    · rename_i hne
+      simp only [List.lookup]
+      have : (k == k') = false := by
+        simp only [beq_eq_false_iff_ne, ne_eq]
+        intro h; subst h; simp at hne
+      rw [this]; exact ih
+
+/-- service discovery, responder side: the answer to SDREQ(tid, name) is the address
+registered under the name, or 0 -/
+theorem sdreq_answer (c : Llc) (tid : Nat) (nm : Bytes) :
+    ∃ c', dispatch c (.snl [(tid, nm)] []) = .ok c' ∧
+      c'.sd.sdres = c.sd.sdres ++ [(tid, (c.snl.lookup nm).getD 0)] ∧ c'.sock = c.sock ∧ c'.sap = c.sap ∧ c'.snl = c.snl :=
+  ⟨_, rfl, rfl, rfl, rfl, rfl⟩
+
+/-- requester side: SDRES(tid, a) for an outstanding request stores exactly `a` for that name -/
+theorem sdres_cached (c : Llc) (tid a : Nat) (nm : Bytes) (hs : c.sd.sent.lookup tid = some nm) (ha : a < 64) :
+    ∃ c', dispatch c (.snl [] [(tid, a)]) = .ok c' ∧ c'.sd.cache.lookup nm = some a := by
+  refine ⟨_, rfl, ?_⟩
+  simp only [sdRequests, sdResponses, hs]
+  have h1 : a / 64 % 2 = 0 := by rw [Nat.div_eq_of_lt ha]
+  have h2 : a % 64 = a := Nat.mod_eq_of_lt ha
+  simp only [h1, h2, Nat.zero_ne_one, ↓reduceIte]
+  exact dictSet_lookup nm a _
+
+/-- closing the last socket of an address frees the address and forgets its names;
+other addresses and names are untouched -/
+theorem removeSocket_last (c : Llc) (id a : Nat) (e : SapEntry) (s' : Sock) (h : e.socks = [id]) :
+    (removeSocket c id a e s').sap a = none ∧
+    (∀ nm, (removeSocket c id a e s').snl.lookup nm ≠ some a) ∧
+    (∀ b, b ≠ a → (removeSocket c id a e s').sap b = c.sap b) ∧
+    (∀ nm b, b ≠ a → c.snl.lookup nm = some b → (removeSocket c id a e s').snl.lookup nm = some b) := by
+  have hr : e.socks.erase id = [] := by rw [h]; simp
+  simp only [removeSocket, hr, ↓reduceIte]
+  refine ⟨by simp [upd], ?_, ?_, ?_⟩
+  · intro nm hl
+    have := lookup_mem hl
+    simp at this
+  · intro b hb; simp [upd, hb, setSock]
+  · intro nm b hb hl
+    exact lookup_filter hl (by simp; exact hb)
+
+/-- closing one of several sockets keeps the address and its names -/
+theorem removeSocket_more (c : Llc) (id a : Nat) (e : SapEntry) (s' : Sock) (h : e.socks.erase id ≠ []) :
+    (removeSocket c id a e s').sap a = some { e with socks := e.socks.erase id } ∧
+    (removeSocket c id a e s').snl = c.snl := by
+  simp only [removeSocket, h, ↓reduceIte]
+  exact ⟨by simp [upd], rfl⟩
 end NfcVerif.Sap
